@@ -2223,7 +2223,7 @@ class OP4Eval(AutoEvaluator):
                 return Txt([Fld(x.v, x.conv, pos[0], x.prec, al, x.flags)])
             return Txt([Fld(t if c is None else Txt([Lit(c)]), "s", pos[0], None, al, "")])
         if method == "split" and not pos and not kw:
-            r = t.split_ws()
+            r = t.split_ws(rng=self.rng)
             return r if r is not None else Unknown(f"split() of {t!r}")
         if method == "split":
             a = sarg(0)
